@@ -420,6 +420,11 @@ impl WorkerTree {
     }
 
     fn insert_source(&mut self, path: PathBuf, output: Option<PathBuf>) {
+        if let Some(output) = output.as_ref() {
+            // the source may have been removed earlier: its output must not be cleaned anymore
+            self.remove_files
+                .retain(|remove_path| remove_path != output);
+        }
         let node_index = self.graph.add_node(if let Some(output) = output {
             WorkItem::new(path.clone(), output)
         } else {
